@@ -363,7 +363,9 @@ def rule_rest(ctx, R="C05.REST", K="C05.KEEP"):
         conn, rest = p.handler_params(rh)
         sigs = handler_path_sigs(p, rh, conn)
         stores = [s for s, t in attr_stores(rh, "restart_offset") if isinstance(s, ast.Assign)]
-        good = any(isinstance(s.value, ast.Call) and (dotted(s.value.func) == "int") and src(s.value.args[0]) == rest for s in stores)
+        def is_int_rest(v):
+            return isinstance(v, ast.Call) and dotted(v.func) == "int" and v.args and src(v.args[0]) == rest
+        good = any(is_int_rest(s.value) or (isinstance(s.value, ast.Name) and any(k == "assign" and is_int_rest(v) for k, v, _ in local_defs(rh, s.value.id))) for s in stores)
         ctx.ob(R, rh, "REST stores int(<argument>) as the offset", good, "REST does not store int(argument) as the restart offset", construct="rest:store")
 
 
@@ -419,7 +421,7 @@ def rule_codes(ctx):
         if not (isinstance(c, ast.Call) and isinstance(c.func, ast.Attribute) and c.func.attr in ("command", "get_stream") and c.args):
             continue
         a = c.args[0]
-        lit = a.value if isinstance(a, ast.Constant) else (a.left.value if isinstance(a, ast.BinOp) and isinstance(a.left, ast.Constant) else None)
+        lit = literal_prefix(p, a, p.enclosing_function(c))[0]
         if not isinstance(lit, str) or not lit.strip():
             continue
         verb = lit.split()[0].lower()
